@@ -103,12 +103,18 @@ func (b *Base) Validate(root *Root) (errs []error) {
 	return
 }
 
-func (b *Base) validateFieldDefs(typeName string, fields *fieldList) (errs []error) {
+func (b *Base) validateFieldDefs(root *Root, typeName string, fields *fieldList) (errs []error) {
 	if 0 < fields.Len() { // must have at least one field
 		for _, f := range fields.list {
 			errs = append(errs, validateName(f.core, "field", f.N, f.line, f.col)...)
+			for _, du := range f.Dirs {
+				errs = append(errs, root.validateDirUse(typeName+"."+f.N, "", du)...)
+			}
 			for _, a := range f.args.list {
 				errs = append(errs, validateName(a.core, "argument", a.N, a.line, a.col)...)
+				for _, du := range a.Dirs {
+					errs = append(errs, root.validateDirUse(typeName+"."+f.N+"."+a.N, "", du)...)
+				}
 				if !IsInputType(a.Type) {
 					errs = append(errs, fmt.Errorf("%w, argument %s of %s must be an input type at %d:%d",
 						ErrValidation, a.Name(), f.Name(), a.line, a.col))
